@@ -286,6 +286,7 @@ def run_history(ops_or_gen, length=None, rng=None, style=None, malformed=False, 
         rec["excs"].append(exc); rec["warns"].append(nwarn)
         if ob["broken"]:
             break
+    rec["net"] = S
     return rec
 
 
